@@ -13,7 +13,7 @@ def plan(prop, tier):
     q = tier == 'quick'
     n = 16 if q else 64
     per = 6 if q else 60        # parameterisations of every scenario per shard
-    return ['asan', 'plain'], [('fault', SEED * 1000 + i, per) for i in range(n)]
+    return ['asan', 'plain', 'efence'], [('fault', SEED * 1000 + i, per) for i in range(n)]
 
 
 def tree_with_strings(rng):
